@@ -36,14 +36,17 @@ def close_vs(other):
     `other` to completion; A resumes"""
     ws, sock, gen = connected()
     gate = sched.Gate()
-    orig = sock.sendall
+    session = ws.state.session
+    orig_write = session.write
 
-    def sendall(d):
-        orig(d)
-        f = ref.decode_one(bytes(d))
+    def write(data, *a, **kw):
+        # cut point: thread A's write of its Close frame has RETURNED (the session lock is released)
+        r = orig_write(data, *a, **kw)
+        f = ref.decode_one(bytes(data))
         if f and f['opcode'] == 8 and threading.current_thread().name == 'A':
             gate.hit()
-    sock.sendall = sendall
+        return r
+    session.write = write
     a = sched.run_thread(lambda: ws.close(1000, b'bye'), 'A')
     gate.reached.wait(2)
     b = sched.run_thread(lambda: other(ws), 'B')
